@@ -10,7 +10,10 @@
 (***************************************************************************)
 EXTENDS Integers, Sequences, TLC, Json
 
-Writers == {"zapio", "zapio-disabled", "stdlog", "stdlog-at", "testing", "testing-markfailed", "bws", "bws-stopped"}
+\* the buffered syncer also over sinks that misbehave: one that takes only part of what it is given without
+\* reporting an error (the buffered syncer must make up for it or report it), one that fails
+FaultySinkWriters == {"bws-over-short-sink", "bws-over-failing-sink"}
+Writers == {"zapio", "zapio-disabled", "stdlog", "stdlog-at", "testing", "testing-markfailed", "bws", "bws-stopped"} \cup FaultySinkWriters
 \* payload classes: what the writers' trimming / splitting logic distinguishes
 Payloads == {"empty", "spaces", "text", "text-nl", "text-nlnl", "nl", "nlnl", "lead-space-text-trail", "multi-line",
              "crlf", "tabs-nl", "large", "large-nl", "binary"}
@@ -21,9 +24,11 @@ VARIABLES w, prior, p, res
 vars == <<w, prior, p, res>>
 Init == w \in Writers /\ prior \in Priors /\ p \in Payloads /\ res = [n |-> "none", err |-> FALSE]
 \* what the code does: every one of them accepts all of p and says so
-Call == res.n = "none" /\ res' = [n |-> "len", err |-> FALSE] /\ UNCHANGED <<w, prior, p>>
+Results(x) == IF x \in FaultySinkWriters THEN {[n |-> "len", err |-> FALSE], [n |-> "short", err |-> TRUE]}
+              ELSE {[n |-> "len", err |-> FALSE]}
+Call == res.n = "none" /\ res' \in Results(w) /\ UNCHANGED <<w, prior, p>>
 Spec == Init /\ [][Call]_vars
 \* C13: never a short count without an error; len(p) with nil error once everything was accepted
-Contract == res.n # "none" => (res.n = "len" /\ ~res.err)
+Contract == res.n # "none" => ((res.n = "short" => res.err) /\ (w \notin FaultySinkWriters => res.n = "len" /\ ~res.err))
 EmitBeh == IF res.n # "none" THEN PrintT("@@BEH " \o ToJson([w |-> w, prior |-> prior, p |-> p, res |-> res])) ELSE TRUE
 =============================================================================
